@@ -18,7 +18,7 @@ if __name__ == "__main__":
     s = conform.ensure(pool=pool)
     # pre-compile the numba closures used by C06-C10/C15/C18 (disk cache; safe to re-run)
     import subprocess
-    for c in ("C06", "C07", "C08", "C10"):
+    for c in ("C06", "C07", "C08", "C10", "C15", "C18"):
         subprocess.run([sys.executable, str(V / "run.py"), c, "--tier", "quick"], capture_output=True)
         subprocess.run(["git", "-C", str(V), "checkout", "--", f"evidence/{c}.json"], capture_output=True)
     pool.close(); pool.join()
